@@ -57,7 +57,9 @@ def step (st : DSt) : List String → DSt × List String
     | _ => ({ st with bad := true }, ["unknown-point " ++ point])
   | ["step", th, point, arg] =>
     match point with
-    | "run.wait" => if arg = "own" then apply st .goReturnOwn else apply st .goReturnCtx
+    | "run.wait" =>
+      if arg = "own" then apply st .goReturnOwn
+      else if arg = "ownctx" then apply st .goReturnOwnCtx else apply st .goReturnCtx
     | "ret.stop" =>
       -- the channel Stop returned: closed iff no generation was published or its stop channel is closed
       let closed := match lookup st.stopGen th with
@@ -103,7 +105,7 @@ def mon (st : Mon) (op : List String) (outs : List (List String)) : Mon × List 
   let panics := (outs.filter (fun l => l.head? = some "panic")).map (fun l => "PROP the task panicked: " ++ String.intercalate " " l)
   let base := (if overlap then ["PROP the function ran twice concurrently"] else []) ++ panics ++
     (if (doneClosed || done) && !(st.ownReturned || st.parentCancelled ||
-          (op.getD 2 "" = "run.wait" ∧ op.getD 3 "" = "own") || op.getD 2 "" = "op.cancel") then
+          (op.getD 2 "" = "run.wait" ∧ (op.getD 3 "" = "own" ∨ op.getD 3 "" = "ownctx")) || op.getD 2 "" = "op.cancel") then
       ["PROP completion signalled although the function neither returned on its own nor the parent context ended"] else [])
   match op with
   | "blocked" :: rest =>
@@ -147,7 +149,8 @@ def mon (st : Mon) (op : List String) (outs : List (List String)) : Mon × List 
       ({ st with pendingCas := if prem then some th else st.pendingCas }, base ++ c4)
     | "start.spawn" => ({ st with unbegun := st.unbegun + 1 }, base ++ c4)
     | "go.begin" => ({ st with unbegun := st.unbegun - 1 }, base ++ c4)
-    | "run.wait" => ({ st with ownReturned := st.ownReturned || rest.head? = some "own" }, base ++ c4)
+    | "run.wait" =>
+      ({ st with ownReturned := st.ownReturned || rest.head? = some "own" || rest.head? = some "ownctx" }, base ++ c4)
     | _ => (st, base ++ c4)
   | _ => (st, base)
 
